@@ -64,13 +64,13 @@ func TestVerifC18CopyShard(t *testing.T) {
 	defer stats.Flush()
 	cl, err := vkSharedCluster()
 	if err != nil {
-		t.Fatalf("cluster: %v", err)
+		vkSetupFailed(t, "cluster: %v", err)
 	}
 	rapid.Check(t, func(rt *rapid.T) {
 		vkCaseSeq++
 		db := fmt.Sprintf("c18_%d_%d", os.Getpid(), vkCaseSeq)
 		if err := cl.createDB(db, 1, 24*time.Hour); err != nil {
-			rt.Fatalf("createDB: %v", err)
+			vkSetupFailed(rt, "createDB: %v", err)
 		}
 		defer cl.dropDB(db)
 		for _, nd := range cl.nodes {
